@@ -450,7 +450,10 @@ func (a *batchFlowActor[T]) maybeRequestUpstream(rctx *actor.ReceiveContext) {
 	if a.completing {
 		return
 	}
-	available := a.config.InitialDemand - a.upstreamCredit - int64(len(a.window))
+	// The window must be able to hold a full batch: with maxSize above the demand
+	// window the stage would otherwise stop pulling before a batch ever fills up.
+	limit := max(a.config.InitialDemand, int64(a.maxSize))
+	available := limit - a.upstreamCredit - int64(len(a.window))
 	if available <= 0 {
 		return
 	}
